@@ -381,8 +381,9 @@ def manifest_text(cfg):
     return "\n".join(lines) + "\n"
 
 
-def materialise(case, dirpath, fmt="json", perm_seed=None, ext=None):
-    """Writes Cargo.toml and the locale files of `case` under dirpath."""
+def materialise(case, dirpath, fmt="json", perm_seed=None, ext=None, decoy_ext=None):
+    """Writes Cargo.toml and the locale files of `case` under dirpath (decoy_ext: next to every file an unparsable one with that
+    extension - a format with two extensions must read the first one only)."""
     shutil.rmtree(dirpath, ignore_errors=True)
     os.makedirs(dirpath)
     with open(os.path.join(dirpath, "Cargo.toml"), "w", encoding="utf8") as f:
@@ -399,6 +400,9 @@ def materialise(case, dirpath, fmt="json", perm_seed=None, ext=None):
         os.makedirs(os.path.dirname(p), exist_ok=True)
         with open(p, "w", encoding="utf8") as f:
             f.write(writer(node, rng) + "\n")
+        if decoy_ext and len(entry) <= 2:
+            with open(os.path.join(dirpath, ldir, rel + "." + decoy_ext), "w", encoding="utf8") as f:
+                f.write("{{{ : not a translation file\n")
 
 
 # --------------------------------------------------------------------------------------
